@@ -145,6 +145,87 @@ def cache_traces(rng, n):
     return out[:n]
 
 
+# one representative request per operation (target: another user / an automation identity)
+REP = [("view", "-", "bob", "-", 0, 0), ("mu2f", "Delete", "bob", "2", 0, 0), ("mtotp", "Disable", "bob", "21", 0, 0),
+       ("totpgen", "-", "bob", "-", 0, 0), ("totpval", "-", "bob", "-", 1, 1), ("u2fbeg", "-", "bob", "-", 0, 0),
+       ("u2ffin", "-", "bob", "-", 1, 1), ("wabeg", "-", "bob", "-", 0, 0), ("wafin", "-", "bob", "-", 1, 1),
+       ("list", "-", "", "-", 0, 0), ("add", "-", "newbie", "-", 0, 0), ("del", "-", "carol", "-", 0, 0),
+       ("botp", "-", "carol", "-", 0, 0), ("role", "-", "robot", "-", 0, 0)]
+LIFE_MS = 300000  # the daemon's five minutes, on the injected clock
+
+
+def rep_req(actor, dd, level, k):
+    op, action, target, index, pend, proof = REP[k]
+    return req(actor, dd, level, op, action, target, index, pend, proof)
+
+
+def sequences(ctx):
+    """Requests as SEQUENCES on one shared admin cache: every ordered pair (op1, op2) of operations by
+    the same actor for every actor role, the role-certificate request followed by each operation at
+    every level and with the directory down at either step, and random longer multi-actor histories
+    with clock advances around the cache lifetime."""
+    quick = ctx.quick()
+    out = []
+    n = len(REP)
+    role_k = n - 1
+    actors = ["auto", "alice", "adm", "gadm"]
+    # what the property text singles out first: automation admin asks for a role certificate, then administers
+    for k in range(n):
+        out.append({"lifetime": LIFE_MS, "steps": [rep_req("auto", 0, PW | U2F, role_k), {"adv": 1000},
+                                                   rep_req("auto", 0, PW | U2F, k)]})
+    for actor in actors:
+        for level in ([PW | U2F] if quick else [PW | U2F, PW, PW | TOTP]):
+            for k1 in range(n):
+                for k2 in range(n):
+                    out.append({"lifetime": LIFE_MS, "steps": [rep_req(actor, 0, level, k1), {"adv": 1000},
+                                                               rep_req(actor, 0, level, k2)]})
+        for level in [PW, PW | TOTP]:
+            for k in range(n):
+                out.append({"lifetime": LIFE_MS, "steps": [rep_req(actor, 0, level, role_k), {"adv": 1000},
+                                                           rep_req(actor, 0, level, k)]})
+        for dd1, dd2 in [(1, 0), (0, 1), (1, 1)]:
+            for k in range(n):
+                out.append({"lifetime": LIFE_MS, "steps": [rep_req(actor, dd1, PW | U2F, role_k), {"adv": 1000},
+                                                           rep_req(actor, dd2, PW | U2F, k)]})
+        # across the expiry: role certificate, wait, administer, role certificate again
+        for gap in [LIFE_MS - 1, LIFE_MS, LIFE_MS + 1]:
+            for k in [0, 1, 9, 12]:
+                out.append({"lifetime": LIFE_MS, "steps": [rep_req(actor, 0, PW | U2F, role_k), {"adv": gap},
+                                                           rep_req(actor, 0, PW | U2F, k), {"adv": 1},
+                                                           rep_req(actor, 0, PW | U2F, role_k)]})
+    rng = ctx.rng
+    for _ in range(40 if quick else 600):
+        steps = []
+        for _ in range(rng.randint(5, 14)):
+            if rng.random() < 0.3:
+                steps.append({"adv": rng.choice([1000, 150000, LIFE_MS - 1, LIFE_MS, LIFE_MS + 1, 10])})
+            steps.append(rep_req(rng.choice(actors), 1 if rng.random() < 0.15 else 0,
+                                 rng.choice([PW, PW | U2F, PW | U2F, PW | TOTP]), rng.randrange(n)))
+        out.append({"lifetime": LIFE_MS, "steps": steps})
+    return out
+
+
+def seq_lines(sq):
+    l = ["sbegin %d" % sq["lifetime"]]
+    for st in sq["steps"]:
+        l.append("sadv %d" % st["adv"] if "adv" in st else "s" + line(st))
+    l.append("send")
+    return l
+
+
+def seq_text(sq, upto=None):
+    parts = []
+    for i, st in enumerate(sq["steps"]):
+        if upto is not None and i > upto:
+            break
+        if "adv" in st:
+            parts.append("+%dms" % st["adv"])
+        else:
+            parts.append("%s%s:%s%s(level %d)->%r" % (st["actor"], "[dir down]" if st["dirdown"] else "", st["op"],
+                                                     "/" + st["action"] if st["action"] != "-" else "", st["level"], st["target"]))
+    return " ; ".join(parts)
+
+
 def canon_impl(l):
     """harness line -> 'class effects…' as the driver prints it."""
     f = dict(kv.split("=", 1) for kv in l.split())
@@ -183,44 +264,95 @@ def canon_line(l):
 def run(ctx):
     facts = c.regen(ctx)
     c.prove(ctx)
+    # readable companion of the c08_helpers_* theorems: which pinned helper text differs, and how
+    import os, re
+    pinned = dict(re.findall(r"/-- `([^`]+)`: (.*?) -/\ndef ", open(os.path.join(c.LEAN, "KM", "Model", "AdminPinned.lean")).read(), re.S))
+    for h in facts.get("c08_helpers") or []:
+        if pinned.get(h["Name"]) != h["Body"].replace("-/", "- /"):
+            ctx.broken.append("helper %s no longer reads as the model transcribes it (theorem c08_helpers_%s): now %r — pinned %r" % (
+                h["Name"], h["Name"].replace(".", "_"), h["Body"][:400], (pinned.get(h["Name"]) or "<none>")[:400]))
     reqs = matrix(ctx)
+    traces = cache_traces(ctx.rng, 150 if ctx.quick() else 2500)
+    seqs = sequences(ctx)
     if ctx.replay:
         rp = json.load(open(ctx.replay))
-        rr = [v["replay"]["request"] for v in rp.get("violations", []) if "request" in v.get("replay", {})]
-        reqs = rr or reqs[:200]
-    ntr = 150 if ctx.quick() else 2500
-    traces = cache_traces(ctx.rng, ntr)
-    if ctx.replay:
-        tr = [(v["replay"]["trace"]["lifetime_ms"], v["replay"]["trace"]["events"])
-              for v in rp.get("violations", []) if "trace" in v.get("replay", {})]
-        traces = tr if (tr or rr) else traces
-        if tr and not rr:
-            reqs = []
+        got = lambda k: [v["replay"][k] for v in rp.get("violations", []) if k in v.get("replay", {})]
+        rr, sq = got("request"), got("sequence")
+        tr = [(t["lifetime_ms"], t["events"]) for t in got("trace")]
+        if rr or tr or sq:
+            reqs, traces, seqs = rr, tr, sq
+        else:
+            reqs, traces, seqs = reqs[:200], traces[:20], seqs[:50]
     pre = prelude()
-    ops = pre + [line(r) for r in reqs] + ["cseq %d %s" % (life, ",".join(evs)) for life, evs in traces]
+    slines, sindex = [], []   # sindex: (sequence number, step number or None) per line
+    for qi, sq in enumerate(seqs):
+        ls = seq_lines(sq)
+        slines += ls
+        sindex += [(qi, None)] + [(qi, i) for i in range(len(sq["steps"]))] + [(qi, None)]
+    ops = pre + [line(r) for r in reqs] + ["cseq %d %s" % (life, ",".join(evs)) for life, evs in traces] + slines
     impl, log, rc = c.run_harness(ctx, "cmd/keymasterd", "C08", ops)
     if rc != 0 or len(impl) != len(ops):
         ctx.broken.append("harness TestVerifC08 did not complete (exit %d, %d/%d lines)" % (rc, len(impl), len(ops)))
         return c.finish(ctx)
     model = c.run_driver(ctx, "model", ops)
     n0, n1 = len(pre), len(pre) + len(reqs)
+    n2 = n1 + len(traces)
+    is_sreq = [False] * len(ops)
+    for j, (qi, si) in enumerate(sindex):
+        if si is not None and "adv" not in seqs[qi]["steps"][si]:
+            is_sreq[n2 + j] = True
     impl_c = list(impl)
-    for i in range(n0, n1):
+    for i in [i for i in range(len(ops)) if n0 <= i < n1 or is_sreq[i]]:
         cls, effs = canon_impl(impl[i])
         impl_c[i] = cls + " " + " ".join(effs) if effs else cls + " "
         impl_c[i] = impl_c[i].strip()
     dis = c.diff_streams(ctx, "handlers + IsAdminUser/admincache vs KM.Admin.authorize/outcome/isAdminUserStep", ops,
-                         impl_c, [canon_line(m) if n0 <= i < n1 else m for i, m in enumerate(model)], canon=lambda x: x.strip())
+                         impl_c, [canon_line(m) if (n0 <= i < n1 or is_sreq[i]) else m for i, m in enumerate(model)], canon=lambda x: x.strip())
     # judge: the property predicate on what the real handlers did
     jops = list(pre)
     for r, l in zip(reqs, impl[n0:n1]):
         cls, effs = canon_impl(l)
         jops.append("j %s %d %d %s %s %s %s %s" % (c.hexs(r["actor"]), r["dirdown"], r["level"], r["op"], r["action"],
                                                   c.hexs(r["target"]), cls, " ".join(effs) if effs else "-"))
-    for (life, evs), l in zip(traces, impl[n1:]):
+    for (life, evs), l in zip(traces, impl[n1:n2]):
         jops.append("jc %d %s %s" % (life, ",".join(evs), ",".join(l.split()) or "-"))
+    for j, (qi, si) in enumerate(sindex):
+        if is_sreq[n2 + j]:
+            r = seqs[qi]["steps"][si]
+            cls, effs = canon_impl(impl[n2 + j])
+            jops.append("sj %s %d %d %s %s %s %s %s" % (c.hexs(r["actor"]), r["dirdown"], r["level"], r["op"], r["action"],
+                                                       c.hexs(r["target"]), cls, " ".join(effs) if effs else "-"))
+        else:
+            jops.append(slines[j])
     verdicts = c.run_driver(ctx, "judge", jops)
-    for (life, evs), l, v in zip(traces, impl[n1:], verdicts[n0 + len(reqs):]):
+    # sequences: every step judged with the administrator status derived from config + directory history
+    seq_steps = seq_viol = 0
+    seq_classes = Counter()
+    seq_admin_after_role = Counter()
+    bad_seq = set()
+    for j, (qi, si) in enumerate(sindex):
+        if not is_sreq[n2 + j]:
+            continue
+        seq_steps += 1
+        sq, r, l, v = seqs[qi], seqs[qi]["steps"][si], impl[n2 + j], verdicts[n2 + j]
+        cls, effs = canon_impl(l)
+        seq_classes[cls] += 1
+        prev = [x for x in sq["steps"][:si] if "adv" not in x and x["actor"] == r["actor"]]
+        if prev and prev[-1]["op"] == "role" and r["op"] != "role":
+            seq_admin_after_role[ROLE_NAME.get(r["actor"], r["actor"]) + ":" + cls] += 1
+        if "unparsed" in l or cls == "?":
+            ctx.broken.append("harness could not read the answer of %s: %s" % (line(r), l))
+        if v != "ok" and qi not in bad_seq:
+            bad_seq.add(qi)
+            seq_viol += 1
+            first = [x for x in sq["steps"] if "adv" not in x][0]
+            key = "seq:%s-then-%s:role=%s%s:level=%d" % (
+                first["op"] if first is not r else "-", r["op"] + ("/" + r["action"] if r["action"] != "-" else ""),
+                ROLE_NAME.get(r["actor"], r["actor"]), "+dirdown" if r["dirdown"] else "", r["level"])
+            what = "sequence on one shared admin cache [%s]: step %d answered %s; judge: %s" % (seq_text(sq, si), si + 1, l, v)
+            c.add_violation(ctx, key, what, {"sequence": {"lifetime": sq["lifetime"], "steps": sq["steps"][:si + 1]},
+                                              "impl": l, "judge": v, "op_lines": seq_lines({"lifetime": sq["lifetime"], "steps": sq["steps"][:si + 1]})})
+    for (life, evs), l, v in zip(traces, impl[n1:n2], verdicts[n1:n2]):
         if v != "ok":
             tr = {"lifetime_ms": life, "events": evs}
             c.add_violation(ctx, "cache:" + v.split()[1] if len(v.split()) > 1 else "cache", (
@@ -253,10 +385,16 @@ def run(ctx):
     cache_calls = sum(sum(1 for e in evs if e[0] == "c") for _, evs in traces)
     kinds = Counter(e.split(":")[1] for _, evs in traces for e in evs if e[0] == "c")
     hits = 0
-    for (life, evs), l in zip(traces, impl[n1:]):
+    for (life, evs), l in zip(traces, impl[n1:n2]):
         hits += sum(1 for t in l.split() if t.startswith("g") and t.endswith("1"))
     ctx.coverage.update({
-        "evaluations": len(reqs) + cache_calls,
+        "evaluations": len(reqs) + cache_calls + seq_steps,
+        "sequences": len(seqs), "sequence_steps": seq_steps, "sequence_status_classes": dict(seq_classes),
+        "sequence_step_after_own_role_cert_request": dict(seq_admin_after_role),
+        "sequence_rule": "all ordered pairs (op1, op2) of the 14 operations by the same actor for each of 4 actor roles on ONE "
+                         "admin cache (injected clock, 5 min lifetime), role-certificate request followed by every operation at "
+                         "every level and with the directory down at either step, expiry-boundary triples, random multi-actor "
+                         "histories; every step judged with admin status derived from configuration + directory history (backedB)",
         "requests": len(reqs), "cache_traces": len(traces), "cache_calls": cache_calls,
         "distinct_nontrivial": len(cells),
         "rule": "whole matrix (actor role incl. directory-down × session level × target × operation × action × index); "
